@@ -45,6 +45,21 @@ int main() {
   std::string line;
   while (std::getline(std::cin, line)) {
     std::istringstream ls(line); std::string cmd; ls >> cmd;
+    if (cmd == "runfile") {
+      // load an image with the real loader, run it to completion on the given input bytes, print the full 32-bit exit value
+      std::string path; ls >> path; std::string inbytes; int c; unsigned long maxc; ls >> maxc;
+      while (ls >> c) inbytes.push_back((char)c);
+      std::istringstream in(inbytes); std::ostringstream out;
+      auto *p = new Processor(in, out, maxc);
+      p->load(path.c_str());
+      std::string exc; int rv = 0;
+      try { rv = p->run(); } catch (std::exception &e) { exc = e.what(); }
+      std::cout << (unsigned)rv << " " << (int)p->running << " out";
+      for (unsigned char ch : out.str()) std::cout << " " << (unsigned)ch;
+      if (!exc.empty()) std::cout << " exception " << exc;
+      std::cout << "\n";
+      delete p;
+    } else
     if (cmd == "dirty") {
       // construct a Processor in storage with non-zero contents (what a heap or stack may hold) and report
       // a memory word outside any image and the value run() returns when the cycle limit ends the run at once
